@@ -196,41 +196,10 @@ def run(ctx):
             ctx.check(ok, "C03-trl2", b.key, "trailers decoded only at end of stream",
                       "the trailers are decoded on a path that neither saw is_eos() nor a trailing poll_next() == None", "", None, p.describe())
 
-    # ---------------------------------------------------------------- frame type table
-    d = ru.need(ctx, "C03-type", "h3::proto::frame::Frame::decode")
-    if d:
-        want = {0: "Ok(Frame::Data)", 1: "Ok(Frame::Headers)", 3: "Ok(Frame::CancelPush)", 4: "Ok(Frame::Settings)",
-                5: "Ok(Frame::PushPromise)", 7: "Ok(Frame::Goaway)", 13: "Ok(Frame::MaxPushId)", 0x41: "Ok(Frame::WebTransportStream)",
-                2: "Err(FrameError::UnsupportedFrame)", 6: "Err(FrameError::UnsupportedFrame)", 8: "Err(FrameError::UnsupportedFrame)",
-                9: "Err(FrameError::UnsupportedFrame)", 0x21: "Err(FrameError::UnknownFrame)", 0x40: "Err(FrameError::UnknownFrame)",
-                10: "Err(FrameError::UnknownFrame)", 0x2a1f: "Err(FrameError::UnknownFrame)"}
-        ps = [p for p in ru.all_paths(ctx, "C03-type", d) if p.end in ("return",)]
-        consts = prog.consts
-
-        def sub_for(x):
-            def s(v):
-                # the decoded frame type: okval(map_err(FrameType::decode(..))) and its .0
-                ck, names = pa.head_call(v)
-                if v[0] in ("okval", "proj") and ck == "core::result::Result::map_err":
-                    inner = v
-                    while inner[0] in ("proj", "okval"):
-                        inner = inner[1]
-                    if inner[0] == "call" and inner[2] and inner[2][0][0] == "call" and inner[2][0][1] in ("h3::proto::frame::FrameType::decode", "<h3::proto::frame::FrameType as h3::proto::coding::Decode>::decode"):
-                        return x
-                if v[0] == "const" and isinstance(v[1], str) and v[1].startswith("h3::proto::frame::FrameType::"):
-                    return consts.get(v[1])
-                if v[0] == "call" and pa.short(v[1]) == "eq" and len(v[2]) == 2:
-                    a, b_ = s(v[2][0]), s(v[2][1])
-                    if a is not None and b_ is not None:
-                        return int(a == b_)
-                return None
-            return s
-        for ty, w in sorted(want.items()):
-            hit = expr.decide(ps, consts, sub_for(ty))
-            shapes = {p.ret_shape() for p in hit if p.ret_shape().startswith("Ok(") or p.ret_shape().startswith("Err(FrameError::Un")}
-            ctx.check(shapes == {w}, "C03-type", d.key, "type %#x -> %s" % (ty, w[3:-1] if w.startswith("Ok") else w[4:-1]),
-                      "frame type %#x decodes to %s, RFC 9114 Table 2 / 7.2.8 requires %s" % (ty, sorted(shapes), w), w)
-        # composition for reserved types is checked in C02-e (UnsupportedFrame -> ForbiddenFrame -> H3_FRAME_UNEXPECTED)
+    # ---------------------------------------------------------------- frame type table (shared with C04)
+    shared.frame_type_table(ctx, "C03-type")
+    # a request stream split into halves keeps its place in the frame sequence
+    shared.frame_stream_split(ctx, "C03-split")
 
     # ---------------------------------------------------------------- WebTransport front door
     b = ru.need(ctx, "C03-wt", "h3_webtransport::server::WebTransportSession::accept_bi::{closure#0}")
